@@ -155,7 +155,11 @@ func TestCheck(t *testing.T) {
 		// entries waiting for the group, a REPLACE behind a missing group.
 		ni := g.S.NIs[r.Intn(len(g.S.NIs))]
 		missingNH := uint64(1 + r.Intn(3))
-		mk := func(id uint64, ni string, e *spb.AFTOperation) gen.OpSpec { e.Id = id; e.NetworkInstance = ni; return gen.OpSpec{NI: ni, Op: e} }
+		mk := func(id uint64, ni string, e *spb.AFTOperation) gen.OpSpec {
+			e.Id = id
+			e.NetworkInstance = ni
+			return gen.OpSpec{NI: ni, Op: e}
+		}
 		nhg := &spb.AFTOperation{Op: spb.AFTOperation_ADD, Entry: &spb.AFTOperation_NextHopGroup{NextHopGroup: &aftpb.Afts_NextHopGroupKey{Id: 1, NextHopGroup: &aftpb.Afts_NextHopGroup{NextHop: []*aftpb.Afts_NextHopGroup_NextHopKey{{Index: missingNH, NextHop: &aftpb.Afts_NextHopGroup_NextHop{Weight: gen.U(1)}}}}}}}
 		v4 := &spb.AFTOperation{Op: spb.AFTOperation_ADD, Entry: &spb.AFTOperation_Ipv4{Ipv4: &aftpb.Afts_Ipv4EntryKey{Prefix: "10.0.0.0/8", Ipv4Entry: &aftpb.Afts_Ipv4Entry{NextHopGroup: gen.U(1)}}}}
 		// op ids deliberately small: the new primary will reuse the same numbers
